@@ -567,6 +567,8 @@ class Interp:
         self.heights: set[str] = set()  # atoms that stand for the height of a cone
         self.ratio_mode = False  # keep quotients with a sum in the denominator as Ratio objects
         self.generic = False  # decide == / != between polynomials for inputs in general position
+        self.module_constants: set[str] = set()  # names of module-level constants the rule allows to be read from the package
+        self._const_cache: dict = {}
         self.kinds: dict[str, set[str]] = {}  # class names a PointSym parameter is an instance of (for isinstance tests)
         self.rules: dict = {}  # atom -> (power, value): atom**power rewrites to value (norms, cos^2 = 1 - sin^2)
         self.hooks: dict = {}  # function name -> callable(args, kwargs) used instead of interpreting the call
@@ -584,6 +586,19 @@ class Interp:
         if isinstance(e, ast.Name):
             if e.id in env:
                 return env[e.id]
+            if e.id in self.module_constants:
+                if e.id not in self._const_cache:
+                    self._const_cache[e.id] = None  # guards against recursion
+                    for mod in ("geometer.point", "geometer.curve", "geometer.operators"):
+                        gv = self.prog.global_value(f"{mod}.{e.id}")
+                        if gv is not None:
+                            try:
+                                self._const_cache[e.id] = self.ev(gv[1], {})
+                            except (Unknown, NotPolynomial):
+                                pass
+                            break
+                if self._const_cache.get(e.id) is not None:
+                    return self._const_cache[e.id]
             return Opaque(f"name {e.id}")
         if isinstance(e, ast.UnaryOp) and isinstance(e.op, ast.Not):
             v = self.ev(e.operand, env)
@@ -841,6 +856,8 @@ class Interp:
                 recv = self.ev(f.value, env)
             except (Unknown, NotPolynomial):
                 recv = None
+            if isinstance(recv, TensorSym) and name in self.hooks:
+                return self.hooks[name]([recv] + [self.ev(a_, env) for a_ in e.args], {k_.arg: self.ev(k_.value, env) for k_ in e.keywords if k_.arg})
             if isinstance(recv, ObjSym):
                 if name in self.hooks:
                     return self.hooks[name]([recv] + [self.ev(a_, env) for a_ in e.args], {})
@@ -1294,6 +1311,7 @@ class Interp:
         sub.depth = self.depth + 1
         sub.infinite, sub.quadric_ctors = self.infinite, self.quadric_ctors
         sub.trig, sub.rules, sub.hooks, sub.heights, sub.ratio_mode, sub.generic = self.trig, self.rules, self.hooks, self.heights, self.ratio_mode, self.generic
+        sub.module_constants, sub._const_cache = self.module_constants, self._const_cache
         try:
             sub.block(m.node.body, env2)
         except _Done as d:
@@ -1390,6 +1408,7 @@ class Interp:
         sub.depth = self.depth + 1
         sub.infinite, sub.quadric_ctors = self.infinite, self.quadric_ctors
         sub.trig, sub.rules, sub.hooks, sub.heights, sub.generic = self.trig, self.rules, self.hooks, self.heights, self.generic
+        sub.module_constants, sub._const_cache = self.module_constants, self._const_cache
         try:
             sub.block(helper.node.body, env2)
         except _Done as d:
@@ -2617,4 +2636,132 @@ def rule_join_meet(run: Run, prog: Program) -> int:
             continue
         run.add("E19.join", fn.short, label, PROVEN if ok else VIOLATION,
                 "the round trip returns a multiple of the common argument" if ok else "the round trip does not return a multiple of the common argument", fn.loc)
+    return n_ob
+
+
+# ---------------------------------------------------------------------------------------------- parallels and mirror images (C10)
+def rule_metric_constructions(run: Run, prog: Program) -> int:
+    run.rule("E19.metric", "SubspaceTensor.parallel for a line of the plane, and LineTensor.mirror in the plane, interpreted on symbolic "
+                           "coordinates (join / meet through the interpreted duality dispatcher, the circular points and the line at infinity read from the module, "
+                           "i^2 = -1): the parallel passes through the point and has the direction resp. the normal of the subspace; the mirror image is the "
+                           "Cartesian reflection (x, y) - 2 (a x + b y + c) / (a^2 + b^2) (a, b)")
+    duality = prog.find_func("_join_meet_duality")
+    sub = prog.find_cls("SubspaceTensor")
+    line_cls = prog.find_cls("LineTensor")
+    if duality is None or sub is None or line_cls is None:
+        run.add("E19.metric", "SubspaceTensor", "constructions", UNDECIDED, "anchors not found", "")
+        return 0
+    duality = prog.body_of(duality)
+    params = duality.node.args
+    point_kinds = {"PointTensor", "Point", "PointLikeTensor", "Tensor", "ProjectiveTensor"}
+
+    def kinds_for(t: TensorSym, n: int) -> set:
+        if t.tensor_shape == (1, 0):
+            return set(point_kinds)
+        return {"SubspaceTensor", "Subspace", "Tensor", "ProjectiveTensor"} | ({"LineTensor", "Line"} if n == 3 else {"PlaneTensor", "Plane"})
+
+    def make_interp() -> "Interp":
+        it = Interp(prog, None, {})
+        it.generic = True
+        it.rules["i"] = (2, LP.const(-1))
+        it.module_constants = {"I", "J", "infty", "infty_plane"}
+
+        def dual_call(args_, kw_):
+            sub_it = make_interp()
+            env = {params.vararg.arg: list(args_)}
+            for kwarg, d in zip(params.kwonlyargs, params.kw_defaults):
+                if d is not None:
+                    env[kwarg.arg] = sub_it.ev(d, {})
+            try:
+                sub_it.block(duality.node.body, env)
+            except _Done as d:
+                got = d.matrix
+                if isinstance(got, TensorSym):
+                    got.kinds = kinds_for(got, got.array.shape[0])
+                    return got
+                raise Unknown("the result of join / meet is not a tensor") from None
+            except _Raise:
+                raise Unknown("join / meet raises") from None
+            raise Unknown("join / meet returns nothing")
+
+        def vec(args_, point: bool):
+            flat = []
+            for a_ in args_:
+                if isinstance(a_, list):
+                    flat += a_
+                elif isinstance(a_, Table) and len(a_.shape) == 1:
+                    flat += [a_.data[(i,)] for i in range(a_.shape[0])]
+                else:
+                    flat.append(a_)
+            cs = [it.lp(x) for x in flat]
+            if point and not (len(args_) == 1 and isinstance(args_[0], (list, Table))):
+                cs.append(LP.const(1))
+            t = TensorSym(Table((len(cs),), {(i,): c for i, c in enumerate(cs)}), 1 if point else 0, 0 if point else 1)
+            t.kinds = kinds_for(t, len(cs))
+            return t
+        it.hooks = {"LeviCivitaTensor": lambda a_, k_: levi_civita(a_[0], a_[1] if len(a_) > 1 else k_.get("covariant", True))
+                    if a_ and isinstance(a_[0], int) and isinstance(a_[1] if len(a_) > 1 else k_.get("covariant", True), bool) else Opaque("eps"),
+                    "TensorDiagram": lambda a_, k_: SymDiagram([tuple(x) for x in a_]) if a_ and all(isinstance(x, (list, tuple)) and len(x) == 2 for x in a_) else Opaque("diagram"),
+                    "from_tensor": lambda a_, k_: a_[-1], "_divide_by_power_of_two": lambda a_, k_: a_[0],
+                    "join": lambda a_, k_: dual_call(a_, k_), "meet": lambda a_, k_: dual_call(a_, k_),
+                    "Point": lambda a_, k_: vec(a_, True), "Line": lambda a_, k_: vec(a_, False), "Plane": lambda a_, k_: vec(a_, False)}
+        return it
+
+    def obj(name: str, n: int, point: bool) -> TensorSym:
+        t = TensorSym(Table((n,), {(i,): LP.sym(f"{name}{i}") for i in range(n)}), 1 if point else 0, 0 if point else 1)
+        t.kinds = kinds_for(t, n)
+        return t
+
+    n_ob = 0
+    fn_par = prog.lookup(sub, "parallel")
+    if fn_par is not None:
+        fn_par = prog.body_of(fn_par)
+        for n, what in ((3, "line of the plane"),):  # a plane of 3-space meets the plane at infinity in a line (2-tensor branch): not in the vocabulary
+            n_ob += 1
+            label = f"parallel to a {what} through a point"
+            s_, p_ = obj("s", n, False), obj("p", n, True)
+            it = make_interp()
+            try:
+                s_.__dict__["dim"] = n - 1
+                res = it.run_method(fn_par, s_, [p_], {})
+                if not isinstance(res, TensorSym) or res.array.shape != (n,) or res.tensor_shape != (0, 1):
+                    raise Unknown(f"the result is not a hyperplane ({getattr(res, 'why', type(res).__name__)[:60]})")
+                problems = []
+                if all(zero_mod(x, it.rules) for x in res.array.data.values()):
+                    problems.append("the result vanishes identically")
+                inc = sum((res.array.data[(i,)] * p_.array.data[(i,)] for i in range(n)), LP())
+                if not zero_mod(inc, it.rules):
+                    problems.append("the parallel does not pass through the point")
+                if not all(zero_mod(res.array.data[(i,)] * s_.array.data[(j,)] - res.array.data[(j,)] * s_.array.data[(i,)], it.rules)
+                           for i in range(n - 1) for j in range(i + 1, n - 1)):
+                    problems.append("the normal of the result is not a multiple of the normal of the subspace: not parallel")
+            except (Unknown, NotPolynomial, RecursionError) as ex:
+                run.add("E19.metric", fn_par.short, label, UNDECIDED, f"not read: {str(ex)[:110]}", fn_par.loc)
+                continue
+            run.add("E19.metric", fn_par.short, label, VIOLATION if problems else PROVEN,
+                    "; ".join(problems) if problems else "passes through the point; its normal is a multiple of the normal of the subspace", fn_par.loc)
+    fn_mir = prog.lookup(line_cls, "mirror")
+    if fn_mir is not None:
+        fn_mir = prog.body_of(fn_mir)
+        n_ob += 1
+        label = "mirror image of a point at a line of the plane"
+        l_, p_ = obj("l", 3, False), obj("p", 3, True)
+        it = make_interp()
+        try:
+            l_.__dict__["dim"] = 2
+            res = it.run_method(fn_mir, l_, [p_], {})
+            if not isinstance(res, TensorSym) or res.array.shape != (3,) or res.tensor_shape != (1, 0):
+                raise Unknown(f"the result is not a point ({getattr(res, 'why', type(res).__name__)[:60]})")
+            a, b, c = (LP.sym(f"l{i}") for i in range(3))
+            x, y, w = (LP.sym(f"p{i}") for i in range(3))
+            nn, t = a * a + b * b, a * x + b * y + c * w
+            want = [nn * x - LP.const(2) * a * t, nn * y - LP.const(2) * b * t, nn * w]
+            got = [res.array.data[(i,)] for i in range(3)]
+            ok = (not all(zero_mod(g_, it.rules) for g_ in got)) and all(zero_mod(got[i] * want[j] - got[j] * want[i], it.rules) for i in range(3) for j in range(i + 1, 3))
+        except (Unknown, NotPolynomial, RecursionError) as ex:
+            run.add("E19.metric", fn_mir.short, label, UNDECIDED, f"not read: {str(ex)[:110]}", fn_mir.loc)
+            return n_ob
+        run.add("E19.metric", fn_mir.short, label, PROVEN if ok else VIOLATION,
+                "the constructed point is the Cartesian reflection for every representative of point and line (a complex factor from the circular points cancels)" if ok else
+                "the constructed point is not the Cartesian reflection of the point at the line", fn_mir.loc)
     return n_ob
